@@ -4,6 +4,7 @@ import (
 	"encoding/json"
 	"fmt"
 	"math/big"
+	"math/rand/v2"
 	"regexp"
 	"sort"
 	"strings"
@@ -275,7 +276,7 @@ func (r *c07Run) run() {
 			case 0:
 				if found {
 					slash := rec.GetSlashAmount(b.K.GetSlashFraction(c.Ctx))
-					c.Msg(&crosschaintypes.MsgAddDelegate{ChainName: spec.Chain, OracleAddress: o.Oracle.Bech32(), Amount: sdk.NewCoin(fxtypes.DefaultDenom, slash.Add(chain.FX(int64(1+rng.IntN(20000)))))})
+					c.Msg(&crosschaintypes.MsgAddDelegate{ChainName: spec.Chain, OracleAddress: o.Oracle.Bech32(), Amount: sdk.NewCoin(fxtypes.DefaultDenom, slash.Add(c07Stake(rng)))})
 				}
 			case 1: // governance removes one or all oracles
 				var keep []*fix.Oracle
@@ -399,5 +400,18 @@ func (r *c07Run) proposalMsgs(k int, reverter common.Address) ([]sdk.Msg, string
 		return []sdk.Msg{&fxgovtypes.MsgUpdateSwitchParams{Authority: gov, Params: fxgovtypes.SwitchParams{DisableMsgTypes: []string{sdk.MsgTypeURL(&banktypes.MsgMultiSend{})}}}}, "passed"
 	default:
 		return []sdk.Msg{&fxgovtypes.MsgUpdateCustomParams{Authority: gov, MsgUrl: sdk.MsgTypeURL(&banktypes.MsgSend{}), CustomParams: *fxgovtypes.NewCustomParams("0.1", time.Hour, "0.2")}}, "passed"
+	}
+}
+
+// c07Stake: added stake from a fraction of a token to tens of thousands: the relative power change
+// of the oracle set ranges from far below to far above the refresh threshold.
+func c07Stake(rng *rand.Rand) sdkmath.Int {
+	switch rng.IntN(4) {
+	case 0:
+		return sdkmath.NewInt(int64(1 + rng.IntN(1_000_000))) // dust
+	case 1:
+		return chain.FX(int64(1 + rng.IntN(150)))
+	default:
+		return chain.FX(int64(1 + rng.IntN(20000)))
 	}
 }
